@@ -78,6 +78,9 @@ def _get_field_validator_values(values, key: str):  # type:ignore
 
 
 def _split(curie: str, *, sep: str = ":") -> tuple[str, str]:
+    if not sep:
+        # with an empty delimiter there is nothing to split at (and str.partition would raise a bare ValueError)
+        raise NoCURIEDelimiterError(curie)
     prefix, delimiter, identifier = curie.partition(sep)
     if not delimiter:
         raise NoCURIEDelimiterError(curie)
